@@ -324,6 +324,22 @@ fn run_generic<M: Matcher>(p: &Prep, m: &M, answers: &[String], ctx: &mut Ctx) {
                 });
             }
         }
+        // search_path without memory maps: the file is read through the same decoder + roll buffer; a File returns
+        // min(free space, rest of the file) per read call = the model's reader with an empty script
+        if let (Strategy::Path(_), false, MatcherSpec::Lit { .. }, true) = (&st, mmap, &case.m, input.len() <= 600) {
+            let rm = ctx.drv.ask(&format!("c03.rbl {} {} {} (script) - - (sink all)", cfg.effective().to_sx(), msx, hex(input)));
+            ctx.rep.eval();
+            ctx.rep.branch("reader-model:path-nommap-compared");
+            if rm != out {
+                ctx.rep.violation(Violation {
+                    kind: "impl_vs_model".into(),
+                    class: "".into(),
+                    tie: format!("{}: Sink event stream of search_path (no mmap) vs Lean model searchReader with an empty read script (theorems C03_reader_*)", name),
+                    case: line.to_string(),
+                    detail: format!("{} strategy {} impl {} model {}", ctxs, name, out, rm),
+                });
+            }
+        }
         if out == spec {
             continue;
         }
